@@ -825,3 +825,57 @@ var confirmedDefaults = map[string]int{
 	"(*message.RouterConfig).setDefaults":                        1,
 	"message/router/middleware.applyDefaultsToDeduplicator":      2,
 }
+
+// StepFailuresReported: in the named (non-literal) functions of a package that return an error, a step whose error
+// result is tested and found non-nil ends in a return that carries a non-nil error: no set-up or publish step fails
+// in silence (the caller would take "nothing published", "handler not registered" for success).
+func StepFailuresReported(c *Check, id, rel string) {
+	n := 0
+	for _, fn := range c.P.SrcFuncs(rel) {
+		if fn.Parent() != nil {
+			continue
+		}
+		rs := fn.Signature.Results()
+		if rs.Len() == 0 || !IsErrorType(rs.At(rs.Len()-1).Type()) {
+			continue
+		}
+		ri := rs.Len() - 1
+		for _, cl := range CallsIn(fn) {
+			call, isCall := cl.(*ssa.Call)
+			if !isCall || call.Parent() != fn {
+				continue
+			}
+			sig := call.Common().Signature()
+			nr := sig.Results().Len()
+			if nr == 0 || !IsErrorType(sig.Results().At(nr-1).Type()) {
+				continue
+			}
+			_, fail := NilEdges(fn, func(v ssa.Value) bool {
+				if nr == 1 {
+					return v == ssa.Value(call)
+				}
+				e, ok := v.(*ssa.Extract)
+				return ok && e.Tuple == ssa.Value(call) && e.Index == nr-1
+			})
+			for _, e := range fail {
+				n++
+				re := ReachEdge(e, nil)
+				okF := true
+				for _, ret := range Returns(fn) {
+					if !re[ret] || KnownNonNilAt(fn, ret, ret.Results[ri]) {
+						continue
+					}
+					for _, v := range RetOrigins(ret, ri) {
+						if !ProvablyNonNil(v, func(x ssa.Value) bool { return KnownNonNilAt(fn, ret, x) }) {
+							okF = false
+						}
+					}
+				}
+				c.Report(okF, id, "STEP-FAILURE-IS-REPORTED", fn, call.Pos(), "error edge of a step", "when a step fails the function returns a non-nil error (it does not go on, or return, as if the step had succeeded)")
+			}
+		}
+	}
+	if fs := c.P.SrcFuncs(rel); len(fs) > 0 {
+		c.Report(true, id, "STEP-FAILURES-SCANNED", fs[0], fs[0].Pos(), "package "+rel, fmt.Sprintf("%d tested step errors examined", n))
+	}
+}
